@@ -25,3 +25,10 @@ void inst_gate_tuple(Global::Gate<Vec2, Mir2>& sys2, Global::Gate<Vec3, Mir3>& s
   Control::Asm::build_gate_tuple(sys2, g0, g1);
   Control::Asm::build_gate_tuple(sys3, g0, g1, g2);
 }
+
+// gather / scatter_axpy / buffer_size member templates of the tuple mirrors (rule E2.tuple-mirror-layout)
+void inst_tuple_mirror(const Mir2& m2, const Mir3& m3, Vec2& v2, Vec3& v3, VecS& buf)
+{
+  m2.gather(buf, v2); m2.scatter_axpy(v2, buf); (void)m2.buffer_size(v2);
+  m3.gather(buf, v3); m3.scatter_axpy(v3, buf); (void)m3.buffer_size(v3);
+}
